@@ -9,7 +9,7 @@ FUNCS = ["problog/library/cut.pl cut/1, cut/2, cut/4", "problog.engine_builtin._
          "problog.engine_builtin._builtin_clause, _builtin_split_call (=..)", "evaluation pipeline as in C01"]
 
 
-def skeleton(rng):
+def skeleton(rng, prob_heads=False):
     nf = rng.randint(2, 4)
     facts = [("ad", [("p%d" % (i + 1), A("f%d" % i))], []) for i in range(nf)]
     atoms = [A("f%d" % i) for i in range(nf)]
@@ -27,13 +27,20 @@ def skeleton(rng):
         # make sure that not every rule is unconditional
         j = rng.randrange(len(rules))
         rules[j] = (rules[j][0], rules[j][1], [P(rng.choice(atoms))])
+    rules = [r + (None,) for r in rules]
+    if prob_heads:
+        # family with probabilistic rule heads: the rule is applicable when its own choice is true and its guard holds
+        k = nf
+        for j in rng.sample(range(len(rules)), rng.randint(1, min(2, len(rules)))):
+            k += 1
+            rules[j] = rules[j][:3] + ("p%d" % k,)
     return facts, rules
 
 
 def real_text(facts, rules):
     lines = [":- use_module(library(cut))."] + [gen.stmt_str(s) for s in facts]
-    for i, val, body in rules:
-        head = "r(%d,%s)" % (i, val)
+    for i, val, body, hp in rules:
+        head = ("%s::" % hp if hp else "") + "r(%d,%s)" % (i, val)
         lines.append(head + (" :- " + ", ".join(gen.lit_str(l) for l in body) if body else "") + ".")
     lines += ["q(V) :- cut(r(V)).", "qi(I) :- cut(r(V), I).", "qv(I,V) :- cut(r(V), I).",
               "query(q(X)).", "query(qi(X)).", "query(qv(X,Y))."]
@@ -44,10 +51,13 @@ def reference(facts, rules):
     """pick_i <=> g_i and no applicable rule with a numerically smaller index"""
     prog = list(facts)
     order = sorted(rules, key=lambda r: r[0])
-    for i, val, body in rules:
-        prog.append(("rule", A("g%d" % i), list(body)) if body else ("fact", A("g%d" % i)))
-    for n, (i, val, body) in enumerate(order):
-        prog.append(("rule", A("pick%d" % i), [P(A("g%d" % i))] + [N(A("g%d" % j)) for j, _, _ in order[:n]]))
+    for i, val, body, hp in rules:
+        if hp:
+            prog.append(("ad", [(hp, A("g%d" % i))], list(body)))
+        else:
+            prog.append(("rule", A("g%d" % i), list(body)) if body else ("fact", A("g%d" % i)))
+    for n, (i, val, body, hp) in enumerate(order):
+        prog.append(("rule", A("pick%d" % i), [P(A("g%d" % i))] + [N(A("g%d" % r[0])) for r in order[:n]]))
         prog.append(("rule", A("q", val), [P(A("pick%d" % i))]))
         prog.append(("rule", A("qi", str(i)), [P(A("pick%d" % i))]))
         prog.append(("rule", A("qv", str(i), val), [P(A("pick%d" % i))]))
@@ -58,7 +68,7 @@ def reference(facts, rules):
 def work(item):
     name, seedstr = item
     rng = random.Random(seedstr)
-    facts, rules = skeleton(rng)
+    facts, rules = skeleton(rng, prob_heads=seedstr.startswith("c33p/"))
     text = real_text(facts, rules)
     st = semcheck.check_semantics(reference(facts, rules), name, text=text)
     for s in st["samples"]:
@@ -73,11 +83,12 @@ def main(tier, seed):
               "parameter values that the answers and the returned index are those of the applicable rule with the numerically "
               "smallest index (reference: pick_i <=> g_i and not g_j for every j < i)")
     run.functions = FUNCS
-    run.assumptions = ["one rule per index, ground rule heads, guards are conjunctions of (negated) probabilistic facts",
+    run.assumptions = ["one rule per index, ground rule heads (deterministic, or probabilistic with a symbolic probability in the second family), guards are conjunctions of (negated) probabilistic facts",
                        "rule sets enumerated (seeded): 2-6 rules, indices 1..15 in shuffled file order", "reference vlib/refsem.py"]
     n = 80 if tier == "quick" else 2000
     items = [("cut/%d/%d" % (seed, i), "c33/%s/%s" % (seed, i)) for i in range(n)]
-    run.bounds = {"rule_sets": n, "max_rules": 6, "indices": "1..15"}
+    items += [("cut-probhead/%d/%d" % (seed, i), "c33p/%s/%s" % (seed, i)) for i in range(n // 2)]
+    run.bounds = {"rule_sets": len(items), "max_rules": 6, "indices": "1..15"}
     for st in pmap(work, items, item_timeout=120):
         run.merge(st)
     return run.finish()
